@@ -159,6 +159,29 @@ def worker(job):
             ext, outs, final = asyncio.run(l3.run_real(nsess, prog))
             done.append((nsess, ext, outs, final))
     l3.judge(part, done, 'C17', extra_monitor=recent_monitor)
+    # maildir: \Recent is "the file is still in new/"; the monitors alone (no model: sessions do not share their selections there)
+    mcases = []
+    for k in range(max(2, ncases // 6)):
+        nsess = r.choice([2, 3, 3])
+        prof = dict(PROFILE, main_box=0, examine=0.25, weights=dict(PROFILE['weights'], copy=18, move=6, select=20, close=10, append=18))
+        prog = l3.gen_program(r, nsess, r.randint(6, maxlen), prof, uid_base=0)
+        # some sessions start unselected: deliveries by a connection that has nothing selected stay unclaimed
+        prog = [op for j, op in enumerate(prog) if not (j < nsess and op[0] == 'select' and r.random() < 0.5)]
+        if r.random() < 0.5:
+            # an unclaimed message copied by a session into the mailbox it has selected itself; later a fresh SELECT
+            prog = [['select', 0, 0, False], ['append', 1, 0, [], 95, 0, 0], ['noop', 0], ['copy', 0, False, True, '1:*', 0, 0], ['close', 0], ['select', 2 % nsess, 0, False]] + prog
+        mcases.append((nsess, instrument(prog, nsess, r)))
+    for nsess, prog in mcases:
+        backend = r.choice(['maildir', 'maildir-fs'])
+        with guarded(part, 'C17 maildir run', dict(nsess=nsess, program=prog, backend=backend)):
+            ext, outs, final = asyncio.run(l3.run_real(nsess, prog, backend=backend))
+            case = dict(nsess=nsess, program=ext, backend=backend)
+            canon, errors, nt, shadows = l3.analyse(nsess, ext, outs)
+            for e in errors:
+                part.violation('monitor', f'{backend}: {e}', case, signature='shadow')
+            nt = recent_monitor(part, case, canon, final, shadows)
+            part.case(key=backend + repr(ext), nontrivial=bool(nt), sample=dict(backend=backend, nsess=nsess, program=[' '.join(map(str, o)) for o in ext[:10]]))
+            part.stat('backend:' + backend)
     return part.result()
 
 
